@@ -48,10 +48,10 @@ def run(ctx):
         build = pool.submit(ctx.go_build_test, "internal/format")
         for i, (cfg, exp) in enumerate(runs):
             jobs.append((cfg, exp, pool.submit(
-                ctx.tlc, "TagValue", cfg, timeout=3000 if th else 900, coverage=(th and i == 0), keep_beh=False,
+                ctx.tlc, "TagValue", cfg, timeout=7200 if th else 1200, coverage=(th and i == 0), keep_beh=False,
                 constants={"MaxLen": 128 if exp else "small", "invariants": INV_NOTE})))
         rawjob = pool.submit(ctx.tlc, "RawTagMC", "RawTag_mc_big.cfg" if th else "RawTag_mc.cfg",
-                             timeout=1800 if th else 600, coverage=th, keep_beh=False)
+                             timeout=3600 if th else 1200, coverage=th, keep_beh=False)
         for cfg, exp, job in jobs:
             mc = job.result()
             ctx.require_model_ok(mc, "TagValue laws (%s)" % cfg)
@@ -88,7 +88,7 @@ def run(ctx):
             f.write(l + "\n")
     res, out, rc = ctx.go_test("internal/format", "TestVerifC11", inp=inp,
                                env={"VERIF_NRANDOM": 300000 if th else 40000, "VERIF_VARIANTS": 4 if th else 3},
-                               timeout=2400 if th else 600)
+                               timeout=3600 if th else 900)
     res = ctx.need_result(res, out, rc, "TestVerifC11")
     if res.get("consts", {}).get("MaxStringLen") != 128:
         raise Infra("format.MaxStringLen is %s: specs/TagValue*.cfg must be re-instantiated" % res.get("consts"))
